@@ -94,6 +94,7 @@ def main(tier: str, seed: int, replay: str | None = None) -> int:
     C.force_repo_on_path()
     rep = C.Report("C05", tier, seed)
     rep.proof_stage()
+    rep.proof_stage("C05_fix")      # leastness of fix() on single-polarity types; fuel bounds
     rng = random.Random(seed)
     quick = tier == "quick"
     hs = [mk_hier(3, False), mk_hier(4, True)] if quick else [mk_hier(3, False), mk_hier(4, True), mk_hier(5, True)]
